@@ -13,7 +13,7 @@ EXPLANATION = ("Structural rules over the typed HIR of the ID allocator and of e
                "condition entails that the freshly updated candidate is not in the in-use set (found not to be a member, or the set found empty; what the path observed of the set before it first changes it - rules/setfacts.py); N4 the same candidate is stored, inserted and "
                "returned; N5 who-may-touch: counter writes (through any alias of the place: `guard.0`, a destructured or re-borrowed guard) and set inserts only in the allocator - a store in the driver loop is accepted only when its arm's paths show it writes back the counter's own current value -, allocator called only "
                "from the operation issue point whose request tuple carries that value, set removals only in the driver "
-               "loop - a `retain` is judged by the removals it amounts to: in the driver loop named IDs only, anywhere else none at all, a predicate about an ID's magnitude being decided against the allocator's own invariant (every member is in 1..=i32::MAX; used only when N2 / N4 / N8 and the other N5 obligations establish it on the analysed tree) -; N6 on every enumerated path of a select! arm a release comes with the un-routing of the same ID (or is the Abandon "
+               "loop, or in the issue point on paths where the removed value is the ID that very call reserved and its only hand-over to the driver is known to have failed before (the driver never learnt of it) - a `retain` is judged by the removals it amounts to: in the driver loop named IDs only, anywhere else none at all, a predicate about an ID's magnitude being decided against the allocator's own invariant (every member is in 1..=i32::MAX; used only when N2 / N4 / N8 and the other N5 obligations establish it on the analysed tree) -; N6 on every enumerated path of a select! arm a release comes with the un-routing of the same ID (or is the Abandon "
                "request's own, never-answered ID). Not decided: the arithmetic of 2^31 wrap-around as a runtime fact "
                "beyond this shape; scheduler interleavings (the single Mutex critical section is the argument).")
 TRUSTED = ['std::sync::Mutex mutual exclusion', 'std HashSet semantics']
@@ -39,6 +39,35 @@ def check_step(ctx, A, root, V, o, CNT, carried, sig, MAX):
         from_counter = sem.strip_site(prev) == sem.strip_site(CNT) or \
             (prev[0] == 'carried' and any(e[2] == prev for e in all_carried))
         ctx.add('N2.init-from-counter', A.path + '|' + sig, loc(root), from_counter, 'the search does not start from the stored counter (guard.0)')
+
+def never_handed_over(f, C, path, h, n):
+    """A release outside the driver loop cannot free an ID some in-flight operation still uses exactly when the driver never learnt
+    of that ID: on every path of the function through this `remove`, the removed value is the ID the allocator returned on this same
+    path, and the only hand-over of it to the driver (a send on the request channel) is known to have failed before the removal -
+    a failed send on an unbounded channel returns the message, nothing was queued.  Returns None when that holds, else the reason."""
+    outs, _I = sem.paths(f, hirq.Body(f, h), result_combinators=True)
+    is_remove = lambda c: c.endswith('HashSet::<T, S, A>::remove') or c.endswith('HashSet::<T, S>::remove')
+    seen = 0
+    for o in outs:
+        for i, cal, args, node in sem.calls(o, is_remove):
+            if node is not n:
+                continue
+            seen += 1
+            allocs = [sem.strip_site(('call', c2, a2, None)) for _j, c2, a2, _n in sem.calls(o, lambda c: c == C.alloc_path)]
+            if len(args) < 2 or sem.strip_site(args[1]) not in allocs:
+                return 'the value released (%s) is not the ID this call reserved' % absx.fmt(args[1] if len(args) > 1 else ('unk', '?'))[:40]
+            sends = [(j, nd) for j, c2, a2, nd in sem.calls(o, lambda c: c.endswith('UnboundedSender::<T>::send')) if sem.recv_ty(nd) == anchors.T_REQ_SENDER]
+            if not sends:
+                return 'on a path that never tried to hand the request to the driver'
+            for j, nd in sends:
+                sid = nd.get('id')
+                if j > i:
+                    return 'the request is handed to the driver after its ID has been released'
+                if not sem.failed(o, lambda v: sem.has(v, lambda x: x[0] == 'call' and x[3] == sid)):
+                    return 'on a path where the request may have reached the driver (the send is not known to have failed)'
+    if not seen:
+        return 'no enumerated path reaches it'
+    return None
 
 def run(ctx):
     f = ctx.facts
@@ -182,7 +211,11 @@ def run(ctx):
                 if m == 'insert':
                     ctx.add('N5.insert-owner', path, loc(n), path == C.alloc_path, 'insert into the in-use set outside the allocator')
                 elif m == 'remove':
-                    ctx.add('N5.remove-owner', path, loc(n), path == C.loop_path, 'release of an ID outside the driver loop')
+                    if path == C.loop_path:
+                        ctx.ok('N5.remove-owner', path, loc(n))
+                    else:
+                        why = never_handed_over(f, C, path, h, n)
+                        ctx.add('N5.remove-owner', path, loc(n), why is None, 'release of an ID outside the driver loop%s' % (': ' + why if why else ''))
                 elif m in ('contains', 'len', 'is_empty', 'get'):     # observers (`&self`, the elements are plain integers): what a path learns from them is setfacts'
                     ctx.ok('N5.read', path + '|' + m, loc(n))
                 elif m == 'retain':
